@@ -84,7 +84,7 @@ def _run(ctx, quick, pool):
     jobs = []
     trace_every = 12 if quick else 2
     for gi, ((ci, d, T), bs) in enumerate(sorted(groups.items())):
-        jobs.append(dict(c=configs[ci], seed=ctx.seed, d=d, T=T, t0=[0.0, 0.25, -0.5, 1.0][(ci + d) % 4],
+        jobs.append(dict(c=configs[ci], seed=ctx.seed, d=d, T=T, t0=[0.0, 0.25, -0.5, 1.0, 16384.0, -8192.0][(ci + d) % 6],
                          j=[3, 4, 5][(ci + T) % 3], behs=bs,
                          trace_idx={(gi * 7) % len(bs)} if gi % trace_every == 0 else set()))
     traces = []
@@ -172,7 +172,7 @@ def _run(ctx, quick, pool):
                  "queries, step counts and outputs")
     ctx.exhaustive = (not quick)
     ctx.assumptions += [
-        "ticks map to t0 + u*2^-j (j in 3..5, t0 in {0, .25, -.5, 1}) so curr_t + dt accumulates exactly in float32/64",
+        "ticks map to t0 + u*2^-j (j in 3..5, t0 in {0, .25, -.5, 1, 16384, -8192}: also time axes far from zero relative to the step) so curr_t + dt accumulates exactly in float32/64",
         "same-entropy BrownianInterval objects return identical values for identical query sequences",
         "interpolation tolerance 4 ulp of the larger neighbour (2 weight roundings + 2 products + 1 sum)",
     ]
